@@ -117,7 +117,14 @@ def cmd_detect(sid, props, tier):
     try:
         for p in props:
             env = dict(os.environ, VERIF_REPO=wt.dir, VERIF_NO_EVIDENCE="1")
-            pr = subprocess.run(["./check", p, "--tier", tier], cwd=VERIF, env=env, capture_output=True, text=True)
+            try:
+                pr = subprocess.run(["./check", p, "--tier", tier], cwd=VERIF, env=env, capture_output=True, text=True, timeout=1500)
+            except subprocess.TimeoutExpired:
+                print(f"{sid} {p} tier={tier} exit=2 violations=0 (the check did not finish within 1500 s)")
+                rcs[p] = 2
+                m.setdefault("detected_by", {})[f"{p}:{tier}"] = "infrastructure failure"
+                subprocess.run("pkill -x vdrive", shell=True)
+                continue
             lines = [l for l in pr.stdout.splitlines() if l.startswith(("VIOLATION", "KNOWN-FINDING"))]
             print(f"{sid} {p} tier={tier} exit={pr.returncode} violations={sum(l.startswith('VIOLATION') for l in lines)}")
             for l in pr.stdout.splitlines()[:6]:
